@@ -102,6 +102,14 @@ class FakeProc:
             raise subprocess.TimeoutExpired(self.command, timeout, output=self.out)
         if self.mode == 'oserror':
             raise OSError(2, 'No such file or directory: %r' % self.command)
+        if self.mode == 'undecodable':
+            # git relays bytes that are not valid UTF-8 (a server message in a legacy
+            # encoding) next to the URL: in text mode the decoding inside communicate()
+            # fails, and the exception object carries the raw output
+            raw = (self.out.encode() if isinstance(self.out, str) else self.out) + b' refus\xe9'
+            if isinstance(self.out, str):
+                raise UnicodeDecodeError('utf-8', raw, len(raw) - 1, len(raw), 'invalid continuation byte')
+            return raw, None
         return self.out, None
 
 
@@ -123,7 +131,7 @@ def fake_popen(decide_mode):
         subprocess.Popen, simplecmd.os.killpg, simplecmd.os.getpgid = orig
 
 
-MODES = ['ok', 'fail', 'timeout', 'oserror']
+MODES = ['ok', 'fail', 'timeout', 'oserror', 'undecodable']
 
 
 def simplecmd_run(mode, rc, binary, debug, secret):
@@ -259,7 +267,7 @@ def git_job_run(fail_at, mode, debug, password, job_kind):
 def git_harness(password):
     def h(ctx):
         k = ctx.choose('fail_at', GIT_STEPS + 1)          # 0: no failure
-        mode = MODES[1 + ctx.choose('mode', 3)] if k else 'ok'
+        mode = MODES[1 + ctx.choose('mode', len(MODES) - 1)] if k else 'ok'
         debug = ctx.decide(z3.Bool('debug'))
         kind = 'jobfailure' if ctx.decide(z3.Bool('jobfailure')) else 'plain'
         leaks, n = git_job_run(k, mode, debug, password, kind)
